@@ -44,6 +44,7 @@ func main() {
 		{"SplitTailGen.v", genSplitTail},
 		{"MatchGen.v", genMatch},
 		{"DedupeGen.v", genDedupe},
+		{"SplitWalkGen.v", genSplitWalk},
 		{"TmsData.v", genTmsData},
 		{"CliGen.v", genCli},
 		{"RingHelpersGen.v", genRingHelpers},
